@@ -20,7 +20,7 @@ RULE = ("(a) every command class is constructed over comm 0..255, counts 1..125,
         "command class, argument class) tuples + distinct transaction ids seen")
 ASSUMPTIONS = ["the decoders in refcodec follow the Modbus specification (big-endian fields, CRC lo-hi, MBAP length = bytes "
                "that follow) and the AA55 framing stated in the property"]
-MUST = ["es_setter_sequences_decoded", "auto_detected_object_frames", "aa55_over_both_transports", "overlapping_polls_txids", "rmw_with_padded_read_answers", "named_single_reads", "dt_fallback_model_query", "tcp_connect_failures_between_requests", "tcp_session_dropped_between_requests", "contract_eval_create_modbus_rtu_request", "contract_eval_create_modbus_tcp_request",
+MUST = ["dt_export_limit_by_model_line", "es_setter_sequences_decoded", "auto_detected_object_frames", "aa55_over_both_transports", "overlapping_polls_txids", "rmw_with_padded_read_answers", "named_single_reads", "dt_fallback_model_query", "tcp_connect_failures_between_requests", "tcp_session_dropped_between_requests", "contract_eval_create_modbus_rtu_request", "contract_eval_create_modbus_tcp_request",
         "contract_eval_create_modbus_rtu_multi_request", "contract_eval_create_modbus_tcp_multi_request",
         "txid_wraps", "negative_values", "aa55_negative_values", "wire_ops_matched", "wire_retransmissions",
         "classes_constructed", "protocol_object_commands"]
@@ -430,6 +430,36 @@ def concurrent_and_padded(spec, part):
                 f"{(sim.bad[0][1] + ' ' + sim.bad[0][2].hex()[:40]) if sim.bad else (run.stop or repr(run.error))}", case)
         else:
             part.count("aa55_over_both_transports")
+    # the DT family keeps its export limit in different registers per model line (documented register map): single-phase models (table of
+    # serial-number tags in configs.py, transcribed from the documentation, not imported from goodwe.model) take a 32-bit value at
+    # 40328..40329 written with one write-multiple, three-phase models a 16-bit value at 40336 written with one write-single
+    from .. import configs
+    for tag in configs.DOC_DT:
+        for port in (8899, 502):
+            sim = models.dt_sim(tag=tag)
+            st = {}
+
+            async def flow(loop):
+                inv = g.DT("inv0", port, 0, 1, 0)
+                await inv.read_device_info()
+                st["n0"] = len(sim.log)
+                await inv.set_grid_export_limit(2500)
+            run = engine.run_custom({("inv0", port): sim}, flow, vtime_cap=600, tx_cap=600)
+            part.evaluations += 1
+            framing = "tcp" if port == 502 else "rtu"
+            case = {"concpad": True}
+            if run.stop or run.error is not None:
+                bad(part, framing, "named-reads-failed", f"DT {tag} port {port}: set_grid_export_limit(2500) ended with {run.stop or repr(run.error)}", case)
+                continue
+            ops = [(r[2]["kind"], r[2]["reg"], r[2].get("value"), bytes(r[2].get("data") or b"").hex()) for r in sim.log[st["n0"]:] if r[2]["kind"] != "read"]
+            single = tag in configs.DOC_SINGLE
+            want = [("multi", 40328, None, "000009c4")] if single else [("write", 40336, 2500, "")]
+            if ops != want:
+                bad(part, framing, "wire-operation-mismatch",
+                    f"DT inverter with serial tag {tag} ({'single' if single else 'three'}-phase line): set_grid_export_limit(2500) put {ops} on the wire, "
+                    f"the register map asks for {want}", case)
+            else:
+                part.count("dt_export_limit_by_model_line")
     # every ES setter sequence (each operation mode on the three firmware generations, export limit, DoD, eco groups, raw settings):
     # all AA55 / Modbus frames the object puts on the wire must decode (header, length byte = payload length, checksum / CRC)
     for transport_port in (8899, 502):
